@@ -123,6 +123,14 @@ impl<'de> serde::Deserialize<'de> for DQ {
     }
 }
 type R4 = Registry!(DX, DS, DT, DQ);
+/// a zero-sized component (a marker): its column is a Vec of a zero-sized type
+pub struct DZ;
+impl<'de> serde::Deserialize<'de> for DZ {
+    fn deserialize<D: Deserializer<'de>>(d: D) -> Result<Self, D::Error> {
+        d.deserialize_u64(U64Visitor).map(|_| DZ)
+    }
+}
+type RZ2 = Registry!(DZ, DT);
 
 // ------------------------------------------------------------------ nondeterministic deserializer
 static mut CALLS: usize = 0;
@@ -308,6 +316,36 @@ fn deser_arch_by_column_leading_component_absent() {
     }
 }
 by_column!(deep_deser_arch_by_column_len2, 2);
+
+/// column-wise, table {DZ, DT} with a zero-sized first component: columns of zero-sized types are
+/// decoded like any other (no arithmetic on `size_of::<C>()` may fail), and the tracked column
+/// behind it is intact
+#[kani::proof]
+#[kani::unwind(6)]
+#[kani::stub(alloc::fmt::format, stub_format)]
+#[kani::stub(core::any::type_name, stub_type_name)]
+fn deser_arch_by_column_zero_sized_component() {
+    unsafe { NO_NONE_AT = [1 + 3 * 1, 2 + 4 * 1, usize::MAX, usize::MAX] };
+    let seed = DeserializeColumns::<RZ2> {
+        lifetime: PhantomData,
+        identifier: unsafe { Identifier::<RZ2>::new(vec![0b11]) },
+        length: 1,
+    };
+    match seed.deserialize(NDe) {
+        Ok(a) => {
+            assert!(a.length == 1 && a.components.len() == 2, "C06/C11: a table with a zero-sized column decodes");
+            let col_t = a.components[1].0 as *const DT;
+            unsafe { assert!(LEDGER[(*col_t).id] == 1, "C11/C05: the column behind the zero-sized one holds the tracked component") };
+            drop(a);
+            let mut i = 0;
+            while i < unsafe { NEXT } {
+                assert!(unsafe { LEDGER[i] } == 2, "C04: dropping the deserialized table drops each value once");
+                i += 1;
+            }
+        }
+        Err(_) => {}
+    }
+}
 
 /// column-wise, table {DS, DT, DQ} of registry (DX, DS, DT, DQ): when the third column fails, the
 /// cleanup must release the two built columns each as a Vec of ITS component (walking the built
